@@ -218,7 +218,12 @@ class Compiler(abc.ABC):
 
             for n1, n2 in GM.mapping.items():
                 for x, y in zip(G1nodes[n1]["args"], G2nodes[n2]["args"]):
-                    if x != y and not (isinstance(x, sym.Symbol) or isinstance(y, sym.Expr)):
+                    if isinstance(x, sym.Expr):
+                        # template parameter of the layout: validated against the device ranges
+                        continue
+                    # hard-coded argument of the layout: a symbolic program argument (e.g. a
+                    # per-time-bin array) cannot match it
+                    if isinstance(y, sym.Expr) or x != y:
                         raise CircuitError(
                             "Program cannot be used with the compiler '{}' "
                             "due to incompatible parameter values.".format(self.short_name)
